@@ -20,19 +20,19 @@ func TestMain(m *testing.M) { kit.Main(m, "C16") }
 // TestCrash: generated operation sequences; every crash point of every sequence is expanded into
 // crash images (exhaustively for few dirty sectors), then the final directory is corrupted byte by byte.
 func TestCrash(t *testing.T) {
-	kit.Check(t, kit.Spec[Case]{Sub: "crash", Quick: 60, Thorough: 450, Gen: genCase, Exec: exec})
+	kit.Check(t, kit.Spec[Case]{Sub: "crash", Quick: 60, Thorough: 450, Gen: genCase, Exec: exec, TrackCase: true})
 }
 
 // TestCorruptExhaustive: short sequences whose final directory is small enough to corrupt EVERY byte
 // offset up to the end of the last record (every record type value at type offsets).
 func TestCorruptExhaustive(t *testing.T) {
-	kit.Check(t, kit.Spec[Case]{Sub: "corrupt", Quick: 2, Thorough: 20, Gen: genCorruptCase, Exec: exec})
+	kit.Check(t, kit.Spec[Case]{Sub: "corrupt", Quick: 2, Thorough: 20, Gen: genCorruptCase, Exec: exec, TrackCase: true})
 }
 
 // TestRecrash: multi-crash sequences - restart from a crash image (torn tail zeroed without sync or
 // repaired), write on, crash again: stale bytes of an earlier torn record lie under later records.
 func TestRecrash(t *testing.T) {
-	kit.Check(t, kit.Spec[Case]{Sub: "recrash", Quick: 10, Thorough: 200, Gen: genRecrashCase, Exec: exec})
+	kit.Check(t, kit.Spec[Case]{Sub: "recrash", Quick: 10, Thorough: 200, Gen: genRecrashCase, Exec: exec, TrackCase: true})
 }
 
 func TestReplay(t *testing.T) {
